@@ -138,6 +138,21 @@ let dispatch cmd a =
       (read_file (bytes_of_tok a.(0)))
   | "read_records" -> res tok_of_recs (read_records (bytes_of_tok a.(0)) (zi 1) (zi 2) (zi 3) (zi 4))
   | "compat" -> tok_of_bool (compat (zi 0) (zi 1) (zi 2))
+  | "crun" | "srun" ->
+    let ops = List.map (fun t ->
+      let body = String.sub t 1 (String.length t - 1) in
+      match t.[0] with
+      | 'R' -> CRead (z_of_string body)
+      | 'N' -> CNext (z_of_string body)
+      | 'S' -> (match String.split_on_char ':' body with
+                | [p; w] -> CSeek (z_of_string p, z_of_string w) | _ -> failwith "seek")
+      | _ -> CReadAll) (Array.to_list (Array.sub a 1 (Array.length a - 1))) in
+    let outs = if cmd = "crun" then snd (crun { c_n = zi 0; c_read = Z0; c_src = Z0 } ops)
+               else snd (srun { sp_n = zi 0; sp_c = Z0 } ops) in
+    String.concat " " (List.map (function
+      | OSlice (x, y) -> "s" ^ string_of_z x ^ ":" ^ string_of_z y
+      | OSeek i -> "k" ^ string_of_z i
+      | OErr e -> "e" ^ err_name e) outs)
   | _ -> "unknown-command " ^ cmd
 
 let () =
